@@ -30,12 +30,21 @@ type world struct {
 	bn   *simbeacon.Net
 	segs *simbeacon.Segments
 	net  *simnet.Net
+	// netDown is the same network in which one external interface per AS
+	// (those in down) has BFD enabled and, nobody running the sessions, is down.
+	netDown *simnet.Net
+	down    map[downKey]bool
 	// beta: accumulator value each registered hop field's MAC was created with,
 	// reconstructed from the registered segments (SegmentID and the MAC chain),
 	// keyed by (segment timestamp, MAC).
 	beta map[betaKey]uint16
 	desc string
 	now  time.Time
+}
+
+type downKey struct {
+	ia addr.IA
+	id uint16
 }
 
 func newWorld(rng *rand.Rand, chain int, epic bool, wi int) (*world, error) {
@@ -58,7 +67,18 @@ func newWorld(rng *rand.Rand, chain int, epic bool, wi int) (*world, error) {
 	if err != nil {
 		return nil, err
 	}
-	w := &world{topo: t, bn: bn, segs: segs, net: sn, beta: map[betaKey]uint16{}, now: now}
+	down := map[downKey]bool{}
+	for _, ia := range t.IAs() {
+		ids := t.ASes[ia].IfIDs()
+		if len(ids) > 0 && rng.IntN(3) != 0 {
+			down[downKey{ia, ids[rng.IntN(len(ids))]}] = true
+		}
+	}
+	snDown, err := simnet.New(t, simnet.Opts{ReuseLocal: wi%2 == 0, BFD: func(ia addr.IA, id uint16) bool { return down[downKey{ia, id}] }})
+	if err != nil {
+		return nil, err
+	}
+	w := &world{topo: t, bn: bn, segs: segs, net: sn, netDown: snDown, down: down, beta: map[betaKey]uint16{}, now: now}
 	w.desc = fmt.Sprintf("%s/%dAS", t.Family, len(t.ASes))
 	add := func(s *seg.PathSegment) {
 		b := s.Info.SegmentID
